@@ -131,7 +131,7 @@ func init() {
 	}
 	c08 := []string{"srv-req-read-close", "srv-req-close", "srv-req-close-smallpipe", "srv-two-seq", "srv-pipelined", "srv-panics", "srv-half-then-close",
 		"srv-4bytes-then-close", "srv-stray-response", "srv-hookfail-req", "srv-hookok-seq", "srv-garbage", "srv-undecodable", "srv-toobig", "srv-req-then-garbage", "srv-slow-close", "srv-halfclose", "srv-3pipelined-close"}
-	c08long := []string{"srv-2conn-big-slow-reader", "srv-refused-requests-a", "srv-refused-requests-b", "srv-hookfail-2conn"} // long scripts: delay bounding
+	c08long := []string{"srv-refused-requests-a", "srv-refused-requests-b", "srv-hookfail-2conn"} // long scripts: delay bounding
 	c08multi := []string{"srv-2conn-good-bad", "srv-2conn-good-abrupt", "srv-3conn", "srv-4pipelined-read1-close"}
 	plans["C08"] = Plan{
 		Post:  mergeSeqEvidence("C08"),
@@ -139,8 +139,8 @@ func init() {
 		Rule: "all schedules (thread interleavings, select choices, timer firings) of the real kmipserver code under scripted client connections, " +
 			"within the bound given per shard; distinct = distinct (scenario, outcome) classes observed. " + boundingNote,
 		Assumptions: []string{timeAssumption, netAssumption, fifoAssumption, "a half-close is treated like a disconnect (no response required after it)"},
-		Quick:       cat(pb(100, B{{0, 0}, {1, 0}}, c08...), db(100, B{{2, 0}}, c08multi...), db(100, B{{0, 0}, {1, 0}}, "srv-size-history"), db(100, B{{1, 0}, {2, 0}}, c08long...), pb(100, B{{0, 0}}, c08long...)),
-		Thorough:    cat(pb(1500, B{{1, 0}, {2, 0}}, c08...), db(1500, B{{3, 0}, {4, 0}}, c08...), db(1500, B{{2, 0}, {3, 0}}, c08multi...), pb(1500, B{{0, 0}}, c08multi...), db(1500, B{{2, 0}}, "srv-size-history"), pb(1500, B{{0, 0}}, "srv-size-history"), db(1500, B{{3, 0}}, c08long...), pb(1500, B{{0, 0}, {1, 0}}, c08long...)),
+		Quick:       cat(pb(100, B{{0, 0}, {1, 0}}, c08...), db(100, B{{2, 0}}, c08multi...), db(100, B{{0, 0}, {1, 0}}, "srv-size-history"), db(100, B{{1, 0}, {2, 0}}, c08long...), pb(100, B{{0, 0}}, "srv-refused-requests-b", "srv-hookfail-2conn"), db(100, B{{1, 0}, {2, 0}}, "srv-2conn-big-slow-reader")),
+		Thorough:    cat(pb(1500, B{{1, 0}, {2, 0}}, c08...), db(1500, B{{3, 0}, {4, 0}}, c08...), db(1500, B{{2, 0}, {3, 0}}, c08multi...), pb(1500, B{{0, 0}}, c08multi...), db(1500, B{{2, 0}}, "srv-size-history"), pb(1500, B{{0, 0}}, "srv-size-history"), db(1500, B{{3, 0}}, c08long...), pb(1500, B{{0, 0}, {1, 0}}, c08long...), db(1500, B{{3, 0}, {4, 0}}, "srv-2conn-big-slow-reader"), pb(600, B{{0, 0}}, "srv-2conn-big-slow-reader")),
 	}
 	plans["C08cold"] = Plan{
 		Property: "C08",
@@ -149,7 +149,7 @@ func init() {
 			"two and three connections whose first requests are decoded, handled and answered concurrently.",
 		Assumptions: []string{},
 		Quick:       split(16, db(100, B{{1, 0}, {2, 0}}, "srv-2conn-cold")),
-		Thorough:    cat(split(16, db(1500, B{{2, 0}, {3, 0}}, "srv-2conn-cold")), split(16, db(1500, B{{2, 0}}, "srv-3conn-cold")), split(16, pb(1500, B{{0, 0}}, "srv-2conn-cold"))),
+		Thorough:    cat(split(16, db(600, B{{2, 0}, {3, 0}}, "srv-2conn-cold")), split(16, db(400, B{{1, 0}, {2, 0}}, "srv-3conn-cold"))),
 	}
 	c10mw := []string{"cli-par-2-libmw", "cli-par-3-libmw"}
 	c10 := []string{"cli-bytes-seq-par", "cli-bytes-cancel", "cli-stray-requests", "cli-cancel-then-next", "cli-timeout-seq", "cli-par-2", "cli-par-cancel", "cli-par-3", "cli-negotiate-cancel"}
